@@ -39,6 +39,7 @@ theorem skel_OAuthProxy_OAuthCallback_ok : skel_OAuthProxy_OAuthCallback = ([
   "return",
   "req.Form.Get",
   "if errorString != \"\"",
+  "fmt.Sprintf",
   "p.ErrorPage",
   "return",
   "decodeState",
@@ -82,5 +83,78 @@ theorem skel_OAuthProxy_OAuthCallback_ok : skel_OAuthProxy_OAuthCallback = ([
   "return",
   "http.Redirect",
   "p.ErrorPage"] : List String) := rfl
+
+theorem skel_extractAllowedEntities_ok : skel_extractAllowedEntities = ([
+  "req.URL.Query",
+  "strings.Split",
+  "if entity != \"\"",
+  "return entities"] : List String) := rfl
+
+theorem skel_checkAllowedEmailDomains_ok : skel_checkAllowedEmailDomains = ([
+  "if len(allowedEmailDomains) == 0",
+  "return true",
+  "strings.Split",
+  "if len(splitEmail) != 2",
+  "return false",
+  "url.Parse",
+  "return util.IsEndpointAllowed(endpoint, allowedEmailDomainsList)",
+  "util.IsEndpointAllowed"] : List String) := rfl
+
+theorem skel_checkAllowedGroups_ok : skel_checkAllowedGroups = ([
+  "if len(allowedGroups) == 0",
+  "return true",
+  "if ok",
+  "return true",
+  "return false"] : List String) := rfl
+
+theorem skel_checkAllowedEmails_ok : skel_checkAllowedEmails = ([
+  "if len(allowedEmails) == 0",
+  "return true",
+  "if email == s.Email",
+  "return allowed"] : List String) := rfl
+
+theorem skel_authOnlyAuthorize_ok : skel_authOnlyAuthorize = ([
+  "if s == nil",
+  "return true",
+  "if !constraint(req, s)",
+  "return false",
+  "return true"] : List String) := rfl
+
+theorem skel_isEmailValidWithDomains_ok : skel_isEmailValidWithDomains = ([
+  "if strings.HasSuffix(email, \"@\"+domain)",
+  "strings.HasSuffix",
+  "return true",
+  "strings.Split",
+  "if (strings.HasPrefix(domain, \".\") && strings.HasSuffix(atoms[len(atoms)-1], domain)) || (strings.HasPrefix(domain, \"*.\") && strings.HasSuffix(atoms[len(atoms)-1], domain[1:]))",
+  "strings.HasPrefix",
+  "strings.HasSuffix",
+  "strings.HasPrefix",
+  "strings.HasSuffix",
+  "return true",
+  "return false"] : List String) := rfl
+
+theorem skel_newValidatorImpl_ok : skel_newValidatorImpl = ([
+  "if domain == \"*\"",
+  "strings.ToLower",
+  "func{",
+  "if email == \"\"",
+  "return",
+  "strings.ToLower",
+  "if !valid",
+  "if allowAll",
+  "return valid",
+  "return validator"] : List String) := rfl
+
+theorem skel_UserMap_LoadAuthenticatedEmailsFile_ok : skel_UserMap_LoadAuthenticatedEmailsFile = ([
+  "if err != nil",
+  "defer",
+  "func{",
+  "if cerr != nil",
+  "csvReader.ReadAll",
+  "if err != nil",
+  "return",
+  "strings.ToLower",
+  "strings.TrimSpace",
+  "atomic.StorePointer"] : List String) := rfl
 
 end O2P.Expect.C08
